@@ -46,7 +46,9 @@ Check(e) ==
                                                    \/ FClose(e.snr3, FMul(FInt(3), e.snr1), FDec("1e-9"), FDec("1e-300"))>>,
                  <<"C20 SNR proportional to the square root of the number of antennas",
                    ~FIsFinite(e.snrN1) \/ FClose(e.snrN4, FMul(FTwo, e.snrN1), FDec("1e-13"), FDec("1e-300"))>>,
-                 <<"C20 independent of event order", e.perm = e.ef1>> >>)
+                 <<"C20 independent of event order", e.perm = e.ef1>>,
+                 <<"C20 SNR independent of event order and of the other events of the batch",
+                   ~FIsFinite(e.snr1) \/ (FClose(e.snrPerm, e.snr1, FDec("1e-12"), FDec("1e-300")) /\ FClose(e.snrAlone, e.snr1, FDec("1e-12"), FDec("1e-300")))>> >>)
       [] OTHER -> <<"unknown event kind">>
 
 TInit == TKInit
